@@ -48,6 +48,9 @@ impl Wake for Flag {
 
 #[derive(Clone, Debug, PartialEq)]
 pub enum Ob {
+    /// number of bytes the next `Wire` packet really occupies on the wire (its form may be shorter or
+    /// longer than the reference encoder's canonical one)
+    WireLen(usize),
     Wire(CPacket),
     WireErr(String),
     Done { op: usize, res: String },
@@ -62,6 +65,7 @@ pub enum Ob {
 impl Ob {
     pub fn brief(&self) -> String {
         match self {
+            Ob::WireLen(n) => format!("({}B)", n),
             Ob::Wire(p) => format!("wire:{}", p.brief()),
             Ob::WireErr(e) => format!("wire:UNDECODABLE {}", e),
             Ob::Done { op, res } => format!("op{}:{}", op, res),
@@ -550,7 +554,11 @@ impl World {
                     drop(w);
                     self.decoded_upto += n;
                     match r {
-                        Ok(p) => self.sh.borrow_mut().log.push(Ob::Wire(p)),
+                        Ok(p) => {
+                            let mut sh = self.sh.borrow_mut();
+                            sh.log.push(Ob::WireLen(n));
+                            sh.log.push(Ob::Wire(p));
+                        }
                         Err(e) => {
                             self.sh
                                 .borrow_mut()
